@@ -144,8 +144,10 @@ static int print_i(void (*printchar_handler)(void *d, int c),
     len = (int)(end - str);
     zero_count =
         (len < min_len                                               ? min_len
-         : (ops & OPS_FLAG_ZERO_PAD) && !(ops & OPS_FLAG_LEFT_ALIGN) ? width
-                                                                     : 0) -
+         : (ops & OPS_FLAG_ZERO_PAD) &&
+                 !(ops & (OPS_FLAG_LEFT_ALIGN | OPS_PREC_IS_GIVEN))
+             ? width
+             : 0) -
         len - prefix_len;
     zero_count = MAX(zero_count, 0);
     /* the precision counts digits only: a sign or 0x does not use it up (the
